@@ -7,16 +7,40 @@
      svc      goa.PermanentError(name, msg) & friends (a *ServiceError, no cause)
      svcf     a ServiceError carrying a Field (MissingFieldError ...)
      nsvc     goa.NewServiceError(cause, name, flags): a ServiceError with a cause
-     plain    errors.New(msg)            (converted on merge: name "error", fault)
-     wrapped  fmt.Errorf("w: %w", svc)   (errors.As finds the inner ServiceError)
+     plain    an error that is not a ServiceError (converted on merge: name "error", fault)
+     wrapped  fmt.Errorf("w: %w", svc|nsvc)   (errors.As finds the inner ServiceError)
      nil
-   Leaf i carries message i (a number standing for the text "m<i>").
+   Leaf i carries message i (a number standing for the text of its message).
+
+   The CAUSE dimension: what an nsvc (or the ServiceError inside a wrapped leaf) wraps, and what a
+   plain leaf is:
+     none     no cause (svc, svcf)
+     plain    errors.New(msg)
+     gst      status.Error(code, msg)                       a gRPC status error
+     gstw     fmt.Errorf("w: %w", status.Error(code, msg))  gRPC status reachable through Unwrap
+     gsti     a caller's own error type with a GRPCStatus() method
+     gstn     the same type whose GRPCStatus() returns nil (not a gRPC status error for grpc-go)
+     gstd     a gRPC status error that already carries a detail of its own (a goa ErrorResponse
+              written by a downstream service: name "down", message 1000+i)
+     svc      another ServiceError (name "inner")            - nsvc only
+     svcg     another ServiceError whose cause is a gst      - nsvc only
+   The rule (the property: "an error encoded into a gRPC status and decoded back has the same name,
+   identifier, message and flags"; NewErrorResponse documents the same for HTTP): the ServiceError
+   closest to the top decides name, id, message and flags, whatever it wraps; an error that holds no
+   ServiceError travels as a fault named "fault" with its own text and a new id.
+   As built (the statement leaves it open, the model follows the code): a gRPC status reachable by
+   unwrapping keeps its *code* (status.FromError), the first one in unwrapping order = merge order
+   when there are several; only without one the flags table applies.
 
    Pointer aliasing is modelled without a heap: a history entry SELF stands for
    "a pointer to the receiver", resolved when the value is observed.  The design
    (documentation of MergeErrors/History) snapshots the original instead; the
    named deviation "merge.history_aliases_receiver" is what the code did before
-   the fix commit. *)
+   the fix commit.
+
+   Named deviation "grpc.detail_after_inherited": EncodeError appends the error response after the
+   details the wrapped gRPC status already carries, DecodeError reads the first detail - the round
+   trip of a ServiceError whose cause is a gstd gives back the downstream error. *)
 EXTENDS Integers, Sequences, FiniteSets, TLC
 
 CONSTANTS Deviations
@@ -26,18 +50,42 @@ FlagRec == [t: BOOLEAN, tmp: BOOLEAN, f: BOOLEAN]
 F3(a, b, c) == [t |-> a, tmp |-> b, f |-> c]
 PlainFlags == F3(FALSE, FALSE, TRUE)
 NoFlags == F3(FALSE, FALSE, FALSE)
+AllFlags == F3(TRUE, TRUE, TRUE)
 
-Leaf(k, n, fl) == [kind |-> k, name |-> n, flags |-> fl]
-NilLeaf == Leaf("nil", "-", NoFlags)
-PlainLeaf == Leaf("plain", "error", PlainFlags)
+\* causes.  gRPC codes: Unknown 2, DeadlineExceeded 4, NotFound 5, Internal 13, Unavailable 14
+Cause(ck, code) == [ck |-> ck, code |-> code]
+NoCause == Cause("none", 0)
+PlainCause == Cause("plain", 0)
+GstCodes == {2, 4, 5, 13, 14}                       \* the four codes of the flags table and one outside it
+IsGst(c) == c.ck \in {"gst", "gstw", "gsti", "gstd", "svcg"}   \* status.FromError finds a status
+\* what a ServiceError may wrap
+CauseSpace == {NoCause, PlainCause} \cup {Cause("gst", c) : c \in GstCodes}
+              \cup {Cause(k, 5) : k \in {"gstw", "gsti", "gstd"}}
+              \cup {Cause("gstn", 0), Cause("svc", 0), Cause("svcg", 14)}
+\* what an error that is not a ServiceError may be (a bare gstd is left out: nothing says whose detail
+\* comes back when the error itself is no ServiceError)
+BareSpace == {PlainCause} \cup {Cause("gst", c) : c \in GstCodes} \cup {Cause("gstw", 5), Cause("gsti", 5), Cause("gstn", 0)}
+
+Leaf(k, n, fl, c) == [kind |-> k, name |-> n, flags |-> fl, cause |-> c]
+NilLeaf == Leaf("nil", "-", NoFlags, NoCause)
+PlainLeaf == Leaf("plain", "error", PlainFlags, PlainCause)
 
 \* the leaf space explored exhaustively; "all" = every flag combination on plain service errors
 LeafSpace(rich) ==
-  {Leaf("svc", n, fl) : n \in Names, fl \in (IF rich THEN FlagRec ELSE {NoFlags, F3(TRUE, TRUE, TRUE), F3(FALSE, TRUE, FALSE)})}
-  \cup {Leaf("svcf", "n1", fl) : fl \in {NoFlags, F3(TRUE, TRUE, TRUE)}}
-  \cup {Leaf("nsvc", "n2", fl) : fl \in {NoFlags, F3(FALSE, TRUE, FALSE)}}
-  \cup {Leaf("wrapped", "n2", fl) : fl \in {NoFlags, F3(TRUE, FALSE, TRUE)}}
+  {Leaf("svc", n, fl, NoCause) : n \in Names, fl \in (IF rich THEN FlagRec ELSE {NoFlags, AllFlags, F3(FALSE, TRUE, FALSE)})}
+  \cup {Leaf("svcf", "n1", fl, NoCause) : fl \in {NoFlags, AllFlags}}
+  \cup {Leaf("nsvc", "n2", fl, PlainCause) : fl \in {NoFlags, F3(FALSE, TRUE, FALSE)}}
+  \cup {Leaf("wrapped", "n2", fl, NoCause) : fl \in {NoFlags, F3(TRUE, FALSE, TRUE)}}
   \cup {PlainLeaf, NilLeaf}
+\* the second family: leaves that differ in their cause
+CauseLeaves(rich) ==
+  {Leaf("nsvc", "n1", NoFlags, c) :
+      c \in {Cause("gst", 5), Cause("gstd", 5), Cause("svcg", 14)}
+            \cup (IF rich THEN {Cause("gst", 14), Cause("gstw", 5), Cause("gsti", 5), Cause("svc", 0)} ELSE {})}
+  \cup {Leaf("nsvc", "n2", F3(FALSE, TRUE, FALSE), Cause("gst", 4))}
+  \cup {Leaf("plain", "error", PlainFlags, c) : c \in {Cause("gst", 5)} \cup (IF rich THEN {Cause("gst", 13), Cause("gstw", 5)} ELSE {})}
+  \cup {Leaf("wrapped", "n2", NoFlags, Cause("gst", 5))}
+  \cup {Leaf("svc", "n1", NoFlags, NoCause), PlainLeaf, NilLeaf}
 
 RECURSIVE Trees(_, _)
 Trees(i, j) == IF i = j THEN {<<"leaf", i>>}
@@ -48,46 +96,43 @@ Trees(i, j) == IF i = j THEN {<<"leaf", i>>}
 Nil == [nil |-> TRUE]
 Entry(n, fld, m) == [name |-> n, field |-> fld, msgs |-> m]
 SELF == Entry("SELF", 0, <<>>)
-HasCause(lf) == lf.kind \in {"plain", "nsvc"}
+HasCause(lf) == lf.cause.ck # "none"
 FieldOf(lf, i) == IF lf.kind = "svcf" THEN i ELSE 0          \* field "f<i>" or none
 
-\* the value of leaf i before any merge; `same` = it is still the caller's own error value
+\* the value of leaf i before any merge; `same` = it is still the caller's own error value;
+\* `svc` = errors.As finds a ServiceError in it; `gsts` = the gRPC statuses status.FromError can reach, in
+\* unwrapping order (det # 0: the status carries its own first detail, the one of leaf det)
 Val(leaves, i) ==
   LET lf == leaves[i] IN
   IF lf.kind = "nil" THEN Nil
-  ELSE [nil |-> FALSE, same |-> i, name |-> lf.name, msgs |-> <<i>>, flags |-> lf.flags,
+  ELSE [nil |-> FALSE, same |-> i, svc |-> lf.kind # "plain",
+        name |-> lf.name, msgs |-> <<i>>, flags |-> lf.flags,
         hist |-> <<>>, self |-> Entry(lf.name, FieldOf(lf, i), <<i>>),
         field |-> FieldOf(lf, i),
-        causes |-> IF HasCause(lf) THEN {i} ELSE {}]
+        causes |-> IF HasCause(lf) THEN {i} ELSE {},
+        gsts |-> IF IsGst(lf.cause) THEN <<[code |-> lf.cause.code, det |-> IF lf.cause.ck = "gstd" THEN i ELSE 0]>> ELSE <<>>]
 
 Hist(e) == IF e.hist # <<>> THEN e.hist ELSE <<SELF>>
 Resolve(h, e) == [k \in 1..Len(h) |-> IF h[k] = SELF THEN Entry(e.name, e.field, e.msgs) ELSE h[k]]
 Snapshot(h, e) == [k \in 1..Len(h) |-> IF h[k] = SELF THEN e.self ELSE h[k]]
 
-Merge(e, o) ==
+\* goa.MergeErrors (D = the deviations in force)
+MergeD(D, e, o) ==
   IF e = Nil THEN o ELSE IF o = Nil THEN e ELSE
-  LET alias == "merge.history_aliases_receiver" \in Deviations
+  LET alias == "merge.history_aliases_receiver" \in D
       eh == IF alias THEN Hist(e) ELSE Snapshot(Hist(e), e)
       oh == IF alias THEN Resolve(Hist(o), o) ELSE Snapshot(Hist(o), o)
-  IN [nil |-> FALSE, same |-> 0,
+  IN [nil |-> FALSE, same |-> 0, svc |-> TRUE,                         \* asError: the result is a ServiceError
       name |-> IF e.name = "error" THEN o.name ELSE e.name,
       msgs |-> e.msgs \o o.msgs,
       flags |-> F3(e.flags.t /\ o.flags.t, e.flags.tmp /\ o.flags.tmp, e.flags.f /\ o.flags.f),
       hist |-> eh \o oh, self |-> e.self, field |-> e.field,
-      causes |-> e.causes \cup o.causes]
+      causes |-> e.causes \cup o.causes,
+      gsts |-> e.gsts \o o.gsts]                                       \* errors.Join(e.err, o.err)
+Merge(e, o) == MergeD(Deviations, e, o)
 
-RECURSIVE Eval(_, _)
-Eval(leaves, t) == IF t[1] = "leaf" THEN Val(leaves, t[2]) ELSE Merge(Eval(leaves, t[2]), Eval(leaves, t[3]))
-
-\* what a caller can observe of the merged error
-SetToSeq(S, n) == LET RECURSIVE go(_) go(i) == IF i > n THEN <<>> ELSE (IF i \in S THEN <<i>> ELSE <<>>) \o go(i + 1) IN go(1)
-Obs(leaves, t) ==
-  LET e == Eval(leaves, t) IN
-  IF e = Nil THEN [kind |-> "nil"]
-  ELSE IF e.same # 0 THEN [kind |-> "same", leaf |-> e.same]
-  ELSE [kind |-> "merged", name |-> e.name, msgs |-> e.msgs, flags |-> e.flags,
-        causes |-> SetToSeq(e.causes, Len(leaves)),
-        hist |-> Resolve(e.hist, e)]
+RECURSIVE EvalD(_, _, _)
+EvalD(D, leaves, t) == IF t[1] = "leaf" THEN Val(leaves, t[2]) ELSE MergeD(D, EvalD(D, leaves, t[2]), EvalD(D, leaves, t[3]))
 
 ---------------------------------------------------------------------------
 \* default status mappings (transcribed from ErrorResponse.StatusCode and grpc.EncodeError)
@@ -97,33 +142,69 @@ HTTPStatus(name, fl) ==
   ELSE IF fl.t THEN (IF fl.tmp THEN 504 ELSE 408)
   ELSE IF fl.tmp THEN 503
   ELSE 400
-\* gRPC codes: Unknown 2, DeadlineExceeded 4, Internal 13, Unavailable 14
 GRPCCode(fl) == IF fl.tmp THEN 14 ELSE IF fl.t THEN 4 ELSE IF fl.f THEN 13 ELSE 2
 
+\* the error on the wire.  An error response is [name, msgs, flags, id]; id is relative to the error
+\* given: "same" = the id of its top ServiceError, "fresh" = a new one, "foreign" = the downstream detail's.
+\* http.NewErrorResponse / grpc.NewErrorResponse: errors.As, else goa.Fault(err.Error())
+Resp(v) == IF v.svc THEN [name |-> v.name, msgs |-> v.msgs, flags |-> v.flags, id |-> "same"]
+           ELSE [name |-> "fault", msgs |-> v.msgs, flags |-> PlainFlags, id |-> "fresh"]
+Foreign(i) == [name |-> "down", msgs |-> <<1000 + i>>, flags |-> AllFlags, id |-> "foreign"]
+\* grpc.EncodeError: a status [code, details]
+EncodeErrorD(D, v) ==
+  LET r == Resp(v) IN
+  IF v.gsts # <<>>
+  THEN \* status.FromError(err) ok: code and details of the status found are kept
+       LET g == v.gsts[1]
+           inherited == IF g.det # 0 THEN <<Foreign(g.det)>> ELSE <<>>
+       IN [code |-> g.code,
+           details |-> IF "grpc.detail_after_inherited" \in D THEN inherited \o <<r>> ELSE <<r>> \o inherited]
+  ELSE IF v.svc THEN [code |-> GRPCCode(v.flags), details |-> <<r>>]
+  ELSE [code |-> 2, details |-> <<r>>]
+\* grpc.DecodeError (first detail) then grpc.NewServiceError (field by field)
+DecodeError(st) == st.details[1]
+WireD(D, v) ==
+  LET st == EncodeErrorD(D, v)
+      h == Resp(v)
+  IN [http |-> HTTPStatus(h.name, h.flags), hresp |-> h, grpc |-> st.code, gresp |-> DecodeError(st)]
+
+\* what a caller can observe of the merged error
+SetToSeq(S, n) == LET RECURSIVE go(_) go(i) == IF i > n THEN <<>> ELSE (IF i \in S THEN <<i>> ELSE <<>>) \o go(i + 1) IN go(1)
+ObsD(D, leaves, t) ==
+  LET e == EvalD(D, leaves, t) IN
+  IF e = Nil THEN [kind |-> "nil"]
+  ELSE IF e.same # 0 THEN [kind |-> "same", leaf |-> e.same, wire |-> WireD(D, e)]
+  ELSE [kind |-> "merged", name |-> e.name, msgs |-> e.msgs, flags |-> e.flags,
+        causes |-> SetToSeq(e.causes, Len(leaves)),
+        hist |-> Resolve(e.hist, e),
+        wire |-> WireD(D, e)]
+Obs(leaves, t) == ObsD(Deviations, leaves, t)
+
+\* status cases: one error alone
 StatusKinds == {"svc", "plain", "wrapped"}
 StatusNames == {"n1", "unsupported_media_type", "error", ""}
-StatusCaseSpace == [kind: StatusKinds, name: StatusNames, flags: FlagRec]
-\* what goes on the wire for a given error (plain errors become a fault named "fault")
-WireErr(c) == IF c.kind = "plain" THEN [name |-> "fault", flags |-> PlainFlags]
-              ELSE [name |-> c.name, flags |-> c.flags]
-StatusObs(c) ==
-  LET w == WireErr(c) IN
-  [http |-> HTTPStatus(w.name, w.flags),
-   grpc |-> IF c.kind = "plain" THEN 2 ELSE GRPCCode(w.flags),
-   rtname |-> w.name, rtflags |-> w.flags, rtsame |-> TRUE]
+StatusCaseSpace == [kind: {"svc", "wrapped"}, name: StatusNames, flags: FlagRec, cause: CauseSpace]
+                   \cup {[kind |-> "plain", name |-> "error", flags |-> PlainFlags, cause |-> c] : c \in BareSpace}
+SLeaf(c) == Leaf(IF c.kind = "svc" THEN (IF c.cause = NoCause THEN "svc" ELSE "nsvc") ELSE c.kind, c.name, c.flags, c.cause)
+StatusObsD(D, c) == WireD(D, Val(<<SLeaf(c)>>, 1))
+StatusObs(c) == StatusObsD(Deviations, c)
 
 ---------------------------------------------------------------------------
 \* state machine: pick a case, compute, done
-CONSTANTS N, Rich
+\* Family splits the case space between runs: "base" = merge trees over LeafSpace, "cause" = merge trees over
+\* CauseLeaves and the status cases, "all" = everything
+CONSTANTS N, Rich, Family
 VARIABLES mode, leaves, tree, scase, pc, obs
 vars == <<mode, leaves, tree, scase, pc, obs>>
 
+NoCase == [kind |-> "svc", name |-> "n1", flags |-> NoFlags, cause |-> NoCause]
 Init == /\ pc = "start" /\ obs = [kind |-> "none"]
         /\ \/ /\ mode = "merge"
-              /\ leaves \in [1..N -> LeafSpace(Rich)]
+              /\ leaves \in (IF Family # "cause" THEN [1..N -> LeafSpace(Rich)] ELSE {})
+                            \cup (IF Family # "base" THEN [1..N -> CauseLeaves(Rich)] ELSE {})
               /\ tree \in Trees(1, N)
-              /\ scase = [kind |-> "svc", name |-> "n1", flags |-> NoFlags]
-           \/ /\ mode = "status"
+              /\ scase = NoCase
+           \/ /\ mode = "status" /\ Family # "base"
               /\ scase \in StatusCaseSpace
               /\ leaves = [i \in 1..N |-> NilLeaf] /\ tree = <<"leaf", 1>>
 DoMerge  == /\ pc = "start" /\ mode = "merge" /\ obs' = Obs(leaves, tree) /\ pc' = "done"
@@ -133,10 +214,14 @@ DoStatus == /\ pc = "start" /\ mode = "status" /\ obs' = StatusObs(scase) /\ pc'
 Next == DoMerge \/ DoStatus
 Spec == Init /\ [][Next]_vars
 
+\* the prediction for the case of the current state under other deviations (finding keys, trace validation)
+PredD(D) == IF mode = "merge" THEN ObsD(D, leaves, tree) ELSE StatusObsD(D, scase)
+
 ---------------------------------------------------------------------------
 \* properties
 NonNil == {i \in 1..N : leaves[i].kind # "nil"}
 Order == SetToSeq(NonNil, N)
+MinOf(S) == CHOOSE i \in S : \A j \in S : i <= j
 MergedDone == pc = "done" /\ mode = "merge"
 Associative == MergedDone => \A t2 \in Trees(1, N) : Obs(leaves, t2) = obs
 NilIdentity == MergedDone =>
@@ -155,10 +240,30 @@ HistoryExactlyOnceUnchanged == MergedDone /\ obs.kind = "merged" =>
     obs.hist = [k \in 1..Len(Order) |-> Entry(leaves[Order[k]].name, FieldOf(leaves[Order[k]], Order[k]), <<Order[k]>>)]
 CausesReachable == MergedDone /\ obs.kind = "merged" =>
     obs.causes = SetToSeq({i \in NonNil : HasCause(leaves[i])}, N)
-\* status mapping is total and lands in the documented classes
+
+\* The ServiceError closest to the top decides what travels, over HTTP and through the gRPC round trip,
+\* whatever it wraps; the status codes follow the tables (a reachable gRPC status keeps its code).
+\* Stated on the leaves, not through Resp/EncodeErrorD.
+TopOfLeaf(lf, i) == IF lf.kind = "plain"
+                    THEN [name |-> "fault", msgs |-> <<i>>, flags |-> PlainFlags, id |-> "fresh"]
+                    ELSE [name |-> lf.name, msgs |-> <<i>>, flags |-> lf.flags, id |-> "same"]
+WireOK(w, top, isSvc, gstCauses) ==
+    /\ w.hresp = top
+    /\ w.gresp = top                                                       \* the gRPC round trip
+    /\ w.http = HTTPStatus(top.name, top.flags)
+    /\ w.http \in {400, 408, 415, 500, 503, 504}
+    /\ IF gstCauses # <<>> THEN w.grpc = gstCauses[1]
+       ELSE IF isSvc THEN w.grpc = GRPCCode(top.flags) /\ w.grpc \in {2, 4, 13, 14}
+       ELSE w.grpc = 2
+TopDecides == MergedDone /\ obs.kind # "nil" =>
+    LET gl == SetToSeq({i \in NonNil : IsGst(leaves[i].cause)}, N)
+        codes == [k \in 1..Len(gl) |-> leaves[gl[k]].cause.code]
+    IN IF obs.kind = "merged"
+       THEN WireOK(obs.wire, [name |-> obs.name, msgs |-> obs.msgs, flags |-> obs.flags, id |-> "same"], TRUE, codes)
+       ELSE WireOK(obs.wire, TopOfLeaf(leaves[obs.leaf], obs.leaf), leaves[obs.leaf].kind # "plain", codes)
+\* status mapping is total and lands in the documented classes; round trip of one error alone
 StatusTotal == pc = "done" /\ mode = "status" =>
-    /\ obs.http \in {400, 408, 415, 500, 503, 504}
-    /\ obs.grpc \in {2, 4, 13, 14}
-    /\ (scase.kind = "plain" => obs.http = 500 /\ obs.rtflags.f)
-    /\ obs.rtsame
+    LET lf == SLeaf(scase) IN
+    /\ WireOK(obs, TopOfLeaf(lf, 1), lf.kind # "plain", IF IsGst(lf.cause) THEN <<lf.cause.code>> ELSE <<>>)
+    /\ (scase.kind = "plain" => obs.http = 500 /\ obs.gresp.flags.f)
 ===========================================================================
